@@ -3,6 +3,10 @@
   Property theorems only (helper lemmas live in Torf.Lemmas.*).
 -/
 import Torf.Lemmas.Codec
+import Torf.Lemmas.RoundTripBack
+import Torf.Lemmas.RoundTripPy
+import Torf.Lemmas.BencodeSmall
+import Torf.Lemmas.BencodeSmallMono
 import Torf.Model.ReadStream
 namespace Torf.C05
 open Torf Torf.Bencode Torf.Codec Torf.ReadStream
@@ -14,13 +18,11 @@ theorem C05_parse_ser (lim : Nat) (v : BVal) (hc : canon v = true) (hs : small l
   parse_ser lim v hc hs
 
 /-- Canonical encodings identify values: two canonical values with the same bytes are equal,
-    so unknown fields, nesting, big integers and arbitrary byte strings are all preserved. -/
-theorem C05_ser_inj (lim : Nat) (v w : BVal) (hv : canon v = true) (hw : canon w = true)
-    (sv : small lim v = true) (sw : small lim w = true) (h : ser v = ser w) : v = w := by
-  have h1 := parse_ser lim v hv sv
-  have h2 := parse_ser lim w hw sw
-  rw [h] at h1
-  exact Option.some.inj (h1.symm.trans h2)
+    so unknown fields, nesting, big integers and arbitrary byte strings are all preserved.
+    (No digit limit: `small` is monotone in the limit and every value is small for some limit.) -/
+theorem C05_ser_inj (v w : BVal) (hv : canon v = true) (hw : canon w = true)
+    (h : ser v = ser w) : v = w :=
+  ser_inj_canon v w hv hw h
 
 /-- The conforming parser accepts `bs` with value `v` exactly when `v` is canonical and `bs` is
     its serialisation. -/
@@ -41,20 +43,22 @@ theorem C05_strict_iff (lim : Nat) (bs : Bytes) (v : BVal) (hs : small lim v = t
   · rintro ⟨hc, rfl⟩
     exact parseStrict_ser lim v hc hs
 
+/-- The same without a side condition: what the decoder returns is always within the digit
+    limit (`parse_small`), so the conforming parser accepts `bs` with value `v` exactly when `v`
+    is canonical, within the limit, and `bs` is its serialisation. -/
+theorem C05_strict_iff_small (lim : Nat) (bs : Bytes) (v : BVal) :
+    parseStrict lim bs = some v ↔ (canon v = true ∧ small lim v = true ∧ ser v = bs) := by
+  constructor
+  · intro h
+    obtain ⟨hp, hc, hs⟩ := parseStrict_inv h
+    exact ⟨hc, parse_small _ _ _ hp, hs⟩
+  · rintro ⟨hc, hs, rfl⟩
+    exact parseStrict_ser lim v hc hs
+
 /-- A byte string survives `decode_value` followed by `encode_value` unchanged, whether or not
     it is valid UTF-8 (valid: str and back through UTF-8; invalid: kept as bytes). -/
-theorem C05_bytes_roundtrip (b : Bytes) : encodeValue (decodeBytes b) = .ok (.bytes b) := by
-  unfold decodeBytes
-  split
-  · rename_i s hs
-    simp only [encodeValue, Except.ok.injEq, BVal.bytes.injEq]
-    unfold utf8Dec String.fromUTF8? at hs
-    split at hs
-    · simp only [Option.some.injEq] at hs
-      subst hs
-      simp [utf8Enc, String.fromUTF8]
-    · exact absurd hs (by simp)
-  · rfl
+theorem C05_bytes_roundtrip (b : Bytes) : encodeValue (decodeBytes b) = .ok (.bytes b) :=
+  bytes_roundtrip b
 
 /-- Integers survive unchanged. -/
 theorem C05_int_roundtrip (i : Int) : encodeValue (decodeValue (.int i)) = .ok (.int i) := rfl
@@ -65,5 +69,352 @@ example : canon (.dict [([97], .list [.int (-3), .bytes [255, 254]]), ([98], .di
           small 4300 (.dict [([97], .list [.int (-3), .bytes [255, 254]]), ([98], .dict [])]) = true := by
   refine ⟨by decide, ?_⟩
   simp [small, smallKvs, smallList, numDigits, decNat_lt]
+
+/-! ### the converters are mutually inverse on canonical values -/
+
+/-- **`encode_value(decode_value(v)) == v`** for every canonical bencode value `v` (any nesting,
+    any integers, byte strings valid UTF-8 or not) whose dictionary keys are valid UTF-8 at every
+    level.  The result is `v` itself, not merely something with the same bytes: `encode_dict`
+    sorts the decoded `str` keys by code point, and that is the raw byte order of their UTF-8
+    encodings (`Codec.utf8_order`), so the canonical key order is reproduced exactly. -/
+theorem C05_enc_dec (v : BVal) (hc : canon v = true) (hu : utf8Keys v = true) :
+    encodeValue (decodeValue v) = .ok v :=
+  enc_dec v hc hu
+
+/-- the form asked for in the design text: same serialisation -/
+theorem C05_enc_dec_ser (v : BVal) (hc : canon v = true) (hu : utf8Keys v = true) :
+    ∃ v', encodeValue (decodeValue v) = .ok v' ∧ ser v' = ser v :=
+  ⟨v, enc_dec v hc hu, rfl⟩
+
+/-- The UTF-8-keys hypothesis cannot be dropped: a canonical dict with the key `b'\xff'` is
+    decoded to a dict with a `bytes` key, which `encode_dict` refuses (`ValueError`). -/
+theorem C05_enc_dec_needs_utf8 :
+    ¬ ∀ v, canon v = true → ∃ v', encodeValue (decodeValue v) = .ok v' := by
+  intro h
+  obtain ⟨v', hv'⟩ := h (.dict [([255], .int 0)]) (by decide)
+  have : (encodeValue (decodeValue (.dict [([255], .int 0)]))).toBool = false := by decide +kernel
+  rw [hv'] at this
+  exact absurd this (by simp [Except.toBool])
+
+/-- non-vacuity of `C05_enc_dec`: nested canonical value, multi-byte UTF-8 key, non-UTF-8 byte
+    string value -/
+example : canon (.dict [([97], .list [.int (-3), .bytes [255, 254]]), ([195, 169], .dict [])]) = true ∧
+    utf8Keys (.dict [([97], .list [.int (-3), .bytes [255, 254]]), ([195, 169], .dict [])]) = true :=
+  ⟨by decide, by decide +kernel⟩
+
+/-! ### read → dump -/
+
+/-- **`Torrent.read_stream(x).dump() == x`** for every canonical document `x` (accepted by the
+    conforming parser as the dictionary `enc`) with UTF-8 keys at every level, `info.pieces` a byte
+    string, `info.private` absent or 0/1, `creation date` absent or a representable integer
+    (`int(fromtimestamp(i).timestamp()) == i`), and either `validate=True` or an `info` key
+    present (without validation `read_stream` *adds* an empty `info` dict to a file that has
+    none, so such a file does not round-trip — see `C05_dump_read_needs_info`).  `validate()`
+    itself is the oracle `env.validate`; that `read` succeeded means it accepted.  Any extra
+    keys, value types and nesting are covered. -/
+theorem C05_dump_read (env : Env) (x : Bytes) (enc : List (Bytes × BVal)) (validate : Bool)
+    (t : List (PyVal × PyVal))
+    (hx : parseStrict env.lim x = some (.dict enc))
+    (hu : utf8Keys (.dict enc) = true)
+    (hpieces : PiecesOk enc) (hpriv : PrivateOk enc) (hdate : DateOk env enc)
+    (hinfo : validate = true ∨ (lookup kInfo enc).isSome = true)
+    (hr : read env x validate = .ok t) :
+    dump env t validate = .ok x := by
+  obtain ⟨hp, hc, hser⟩ := parseStrict_inv hx
+  have hs := parse_small _ _ _ hp
+  rw [read_eq] at hr
+  split at hr
+  · exact absurd hr (by simp)
+  · simp only [hp] at hr
+    obtain ⟨hrep, hens, hval⟩ := readDict_rep env enc validate t hc hu hpieces hpriv hdate hinfo hr
+    have hc' := hc
+    simp only [canon, Bool.and_eq_true] at hc'
+    have henc : encodeDict t = .ok (.dict enc) :=
+      encodeValue_dict_of_rep hrep (List.Perm.refl _) hc'.1
+    simp only [dump, convert, hens, hval, henc, hs, hser]
+    simp
+
+/-- what the read metainfo is: an entry-by-entry decoding of the document, `encode_dict` of it
+    is the parsed document itself (same hypotheses as `C05_dump_read`) -/
+theorem C05_read_encodes (env : Env) (x : Bytes) (enc : List (Bytes × BVal)) (validate : Bool)
+    (t : List (PyVal × PyVal))
+    (hx : parseStrict env.lim x = some (.dict enc))
+    (hu : utf8Keys (.dict enc) = true)
+    (hpieces : PiecesOk enc) (hpriv : PrivateOk enc) (hdate : DateOk env enc)
+    (hinfo : validate = true ∨ (lookup kInfo enc).isSome = true)
+    (hr : read env x validate = .ok t) :
+    encodeDict t = .ok (.dict enc) ∧ ensureInfo t = t := by
+  obtain ⟨hp, hc, hser⟩ := parseStrict_inv hx
+  rw [read_eq] at hr
+  split at hr
+  · exact absurd hr (by simp)
+  · simp only [hp] at hr
+    obtain ⟨hrep, hens, _⟩ := readDict_rep env enc validate t hc hu hpieces hpriv hdate hinfo hr
+    have hc' := hc
+    simp only [canon, Bool.and_eq_true] at hc'
+    exact ⟨encodeValue_dict_of_rep hrep (List.Perm.refl _) hc'.1, hens⟩
+
+/-- The `info`-presence hypothesis cannot be dropped: the canonical file `de`, read without
+    validation, dumps as `d4:infodee`. -/
+theorem C05_dump_read_needs_info :
+    ∃ env x t, parseStrict env.lim x = some (.dict []) ∧ read env x false = .ok t ∧
+      dump env t false = .ok [100, 52, 58, 105, 110, 102, 111, 100, 101, 101] ∧ x = [100, 101] :=
+  ⟨exEnv, [100, 101], [(.str "info", .dict [])], by rfl, by rfl,
+   ok_of_toOption (by decide +kernel), rfl⟩
+
+/-- `private` must be 0/1: the canonical `d4:infod7:privatei2eee` is re-written with `i1e`
+    (the setter stores `bool(value)`). -/
+theorem C05_dump_read_needs_private :
+    ∃ x, (parseStrict rtEnv.lim x).isSome = true ∧
+      ¬ ∃ t, read rtEnv x true = .ok t ∧ dump rtEnv t true = .ok x :=
+  ⟨[100, 52, 58, 105, 110, 102, 111, 100, 55, 58, 112, 114, 105, 118, 97, 116, 101, 105, 50, 101,
+    101, 101], by decide +kernel, fun ⟨_, hr, hd⟩ => by
+    have h := readDump_of hr hd
+    have h2 : readDump rtEnv [100, 52, 58, 105, 110, 102, 111, 100, 55, 58, 112, 114, 105, 118, 97,
+      116, 101, 105, 50, 101, 101, 101] true = some [100, 52, 58, 105, 110, 102, 111, 100, 55, 58,
+      112, 114, 105, 118, 97, 116, 101, 105, 49, 101, 101, 101] := by decide +kernel
+    rw [h2] at h
+    exact absurd h (by decide)⟩
+
+/-- the creation date must be an integer: in the canonical `d13:creation date0:4:infodee` the
+    falsy non-int value is silently dropped by the setter, the dump is `d4:infodee`. -/
+theorem C05_dump_read_needs_date :
+    ∃ x, (parseStrict rtEnv.lim x).isSome = true ∧
+      ¬ ∃ t, read rtEnv x true = .ok t ∧ dump rtEnv t true = .ok x :=
+  ⟨[100, 49, 51, 58, 99, 114, 101, 97, 116, 105, 111, 110, 32, 100, 97, 116, 101, 48, 58, 52, 58,
+    105, 110, 102, 111, 100, 101, 101], by decide +kernel, fun ⟨_, hr, hd⟩ => by
+    have h := readDump_of hr hd
+    have h2 : readDump rtEnv [100, 49, 51, 58, 99, 114, 101, 97, 116, 105, 111, 110, 32, 100, 97,
+      116, 101, 48, 58, 52, 58, 105, 110, 102, 111, 100, 101, 101] true =
+      some [100, 52, 58, 105, 110, 102, 111, 100, 101, 101] := by decide +kernel
+    rw [h2] at h
+    exact absurd h (by decide)⟩
+
+/-- `pieces` must not contain a dictionary (a byte string in every valid torrent): it is put
+    back un-decoded, and `encode_dict` refuses the `bytes` keys of
+    `d4:infod6:piecesd1:ai0eeee` — `dump()` raises `MetainfoError`. -/
+theorem C05_dump_read_needs_pieces :
+    ∃ x, (parseStrict rtEnv.lim x).isSome = true ∧
+      ¬ ∃ t, read rtEnv x true = .ok t ∧ dump rtEnv t true = .ok x :=
+  ⟨[100, 52, 58, 105, 110, 102, 111, 100, 54, 58, 112, 105, 101, 99, 101, 115, 100, 49, 58, 97,
+    105, 48, 101, 101, 101, 101], by decide +kernel, fun ⟨_, hr, hd⟩ => by
+    have h := readDump_of hr hd
+    have h2 : readDump rtEnv [100, 52, 58, 105, 110, 102, 111, 100, 54, 58, 112, 105, 101, 99, 101,
+      115, 100, 49, 58, 97, 105, 48, 101, 101, 101, 101] true = none := by decide +kernel
+    rw [h2] at h
+    exact absurd h (by decide)⟩
+
+/-- non-vacuity of `C05_dump_read` / `C05_read_encodes`: the document `rtX` (multi-byte key `é`,
+    non-UTF-8 pieces and value, private 1, creation date 5, nested containers) satisfies every
+    hypothesis and `read_stream` accepts it -/
+example : parseStrict rtEnv.lim rtX = some (.dict rtEnc) ∧
+    utf8Keys (.dict rtEnc) = true ∧ PiecesOk rtEnc ∧ PrivateOk rtEnc ∧ DateOk rtEnv rtEnc ∧
+    (∃ t, read rtEnv rtX true = .ok t) := by
+  have hi : lookup kInfo rtEnc = some (.dict rtInfo) := by rfl
+  refine ⟨(C05_strict_iff _ _ _ (by decide +kernel)).mpr ⟨by decide, by decide +kernel⟩,
+    by decide +kernel, ?_, ?_, ?_, exists_ok_of_toBool (by decide +kernel)⟩
+  · intro ikvs p h1 h2
+    rw [hi] at h1
+    simp only [Option.some.injEq, BVal.dict.injEq] at h1
+    subst h1
+    have : lookup kPieces rtInfo = some (.bytes [255, 254]) := by rfl
+    rw [this] at h2
+    exact ⟨_, (Option.some.inj h2).symm⟩
+  · intro ikvs p h1 h2
+    rw [hi] at h1
+    simp only [Option.some.injEq, BVal.dict.injEq] at h1
+    subst h1
+    have : lookup kPrivate rtInfo = some (.int 1) := by rfl
+    rw [this] at h2
+    exact Or.inr (Option.some.inj h2).symm
+  · intro cd h
+    have : lookup kCreationDate rtEnc = some (.int 5) := by rfl
+    rw [this] at h
+    exact ⟨5, (Option.some.inj h).symm, rfl⟩
+
+/-! ### dump → read -/
+
+/-- **A read torrent is a fixed point of dump-then-read:** under the hypotheses of
+    `C05_dump_read`, the torrent `t` read from `x` dumps to `x` and reading that dump gives `t`
+    again — identical metainfo, no normalisation at all. -/
+theorem C05_read_dump_fixpoint (env : Env) (x : Bytes) (enc : List (Bytes × BVal))
+    (validate : Bool) (t : List (PyVal × PyVal))
+    (hx : parseStrict env.lim x = some (.dict enc))
+    (hu : utf8Keys (.dict enc) = true)
+    (hpieces : PiecesOk enc) (hpriv : PrivateOk enc) (hdate : DateOk env enc)
+    (hinfo : validate = true ∨ (lookup kInfo enc).isSome = true)
+    (hr : read env x validate = .ok t) :
+    ∃ bs, dump env t validate = .ok bs ∧ read env bs validate = .ok t :=
+  ⟨x, C05_dump_read env x enc validate t hx hu hpieces hpriv hdate hinfo hr, hr⟩
+
+/-- `C05_read_dump` with the export hypotheses stated on the *written document* `enc`
+    (`bs` is canonical by `C06_canonical`; `hparse` names its parse): `pieces` a byte string,
+    `private` 0/1, representable `creation date`.  Conclusion: reading succeeds
+    with some `t'` such that
+    * `t'.dump() == bs` (byte-identical file again),
+    * `t'` and `t` have the same canonical conversion: `encode_dict(t') = norm (encode_dict(t))`
+      (`norm` only sorts dictionaries by raw key) — i.e. `t' = t` up to exactly what `convert()`
+      erases: tuple→list, bool→0/1, float→int, datetime→int (and back to `datetime` for the
+      top-level `creation date`), `private`→bool, bytes that are valid UTF-8→str, dict insertion
+      order (→ raw key order, `pieces` last in `info`), absent `info`→`{}`,
+    * the bytes hashed for the infohash, and hence the infohash for every hash function, are the
+      same (whenever `validate()` accepts `t'`, which `infohash` always calls).
+    For `t` that was itself read from a file, `t' = t` exactly (`C05_read_dump_fixpoint`). -/
+theorem C05_read_dump_doc (env : Env) (t : List (PyVal × PyVal)) (validate : Bool) (bs : Bytes)
+    (enc : List (Bytes × BVal))
+    (hw : wf (.dict (ensureInfo t)) = true)
+    (hd : dump env t validate = .ok bs)
+    (hsize : bs.length ≤ env.maxSize)
+    (hinfo : ∃ ikvs, PyVal.lookupStr "info" (ensureInfo t) = some (.dict ikvs))
+    (hparse : parseStrict env.lim bs = some (.dict enc))
+    (hpieces : PiecesOk enc) (hpriv : PrivateOk enc) (hdate : DateOk env enc)
+    (hval : validate = true → ∀ t', read env bs false = .ok t' → env.validate (.dict t') = true) :
+    ∃ t', read env bs validate = .ok t' ∧ dump env t' validate = .ok bs ∧
+      (∃ u, encodeDict (ensureInfo t) = .ok u ∧ encodeDict t' = .ok (norm u)) ∧
+      (∀ ib, infoBytes env t = .ok ib → env.validate (.dict t') = true →
+        infoBytes env t' = .ok ib) ∧
+      (∀ H h, infohash env H t = .ok h → env.validate (.dict t') = true →
+        infohash env H t' = .ok h) := by
+  obtain ⟨ukvs, hu, hps, hcn, hsn, hun, _, _⟩ := dump_parse hw hd
+  have henc : norm (.dict ukvs) = .dict enc := Option.some.inj (hps.symm.trans hparse)
+  rw [henc] at hcn hsn hun
+  obtain ⟨hp, _, _⟩ := parseStrict_inv hparse
+  -- the `info` entry of the written document
+  obtain ⟨ikvs, hli⟩ := hinfo
+  obtain ⟨ukvs', iu, heq, hiu, hm⟩ := mem_encodeDict "info" (.dict ikvs) _ _ hu hli
+  simp only [BVal.dict.injEq] at heq; subst heq
+  rw [kInfo_eq] at hm
+  simp only [norm, BVal.dict.injEq] at henc
+  have hc' := hcn
+  simp only [canon, Bool.and_eq_true] at hc'
+  have hl : lookup kInfo enc = some (norm iu) :=
+    lookup_of_mem kInfo (norm iu) enc (keysAsc_nodup _ hc'.1) (henc ▸ mem_isort_normKvs hm)
+  have hiud : ∃ iukvs, iu = .dict iukvs := by
+    simp only [encodeValue] at hiu
+    split at hiu
+    · simp only [Except.ok.injEq] at hiu; exact ⟨_, hiu.symm⟩
+    · exact absurd hiu (by simp)
+  obtain ⟨iukvs, rfl⟩ := hiud
+  have hl' : lookup kInfo enc = some (.dict (isort keyLe (normKvs iukvs))) := by
+    rw [hl]; simp only [norm]
+  obtain ⟨t', hrd⟩ := readDict_progress env enc _ hcn hun hpieces hdate hl'
+  have hread : ∀ v, read env bs v = readDict env enc v := by
+    intro v; rw [read_eq]; simp [Nat.not_lt.mpr hsize, hp]
+  have hr0 : read env bs false = .ok t' := by rw [hread, hrd]; simp
+  have hv : validate = true → env.validate (.dict t') = true := fun h => hval h t' hr0
+  have hr1 : read env bs validate = .ok t' := by
+    rw [hread, hrd]
+    cases validate with
+    | false => simp
+    | true => simp [hv rfl]
+  have hinfo' : validate = true ∨ (lookup kInfo enc).isSome = true := Or.inr (by simp [hl])
+  obtain ⟨hrep, hens, _⟩ := readDict_rep env enc validate t' hcn hun hpieces hpriv hdate hinfo'
+    (hread validate ▸ hr1)
+  have hdump := C05_dump_read env bs enc validate t' hparse hun hpieces hpriv hdate hinfo' hr1
+  have henc' : encodeDict t' = .ok (.dict enc) :=
+    encodeValue_dict_of_rep hrep (List.Perm.refl _) hc'.1
+  have hib : ∀ ib, infoBytes env t = .ok ib → env.validate (.dict t') = true →
+      infoBytes env t' = .ok ib := by
+    intro ib hib hvt
+    obtain ⟨ikvs2, iu2, _, hl2, hiu2, _, rfl⟩ := infoBytes_ok hib
+    rw [hli] at hl2
+    simp only [Option.some.injEq, PyVal.dict.injEq] at hl2; subst hl2
+    have : Except.ok iu2 = Except.ok (BVal.dict iukvs) := hiu2.symm.trans hiu
+    simp only [Except.ok.injEq] at this; subst this
+    obtain ⟨mi, hmi, hemi⟩ := hrep.lookup "info" (kInfo_eq ▸ hl)
+    obtain ⟨D', _, rfl, _, _⟩ := encodeValue_dict_inv (by simpa only [norm] using hemi)
+    have hsm : small env.lim (norm (.dict iukvs)) = true := by
+      simp only [small] at hsn
+      exact ((smallKvs_iff _ _).mp hsn _ (mem_of_lookup hl)).2
+    simp only [infoBytes, hens, hvt, hmi, encodeDict, hemi, hsm, ser_norm]
+    simp
+  refine ⟨t', hr1, hdump, ⟨_, hu, ?_⟩, hib, ?_⟩
+  · rw [henc']; simp only [norm, henc]
+  · intro H h hh hvt
+    unfold infohash at hh ⊢
+    split at hh
+    · rename_i ib hib'
+      rw [hib ib hib' hvt]; exact hh
+    · exact absurd hh (by simp)
+
+/-- **`read_stream(t.dump())` for an arbitrary exportable torrent `t`** (any value types the
+    converter accepts, any extra keys, any insertion order).
+    Hypotheses, all on the torrent itself: `t.metainfo` is a Python dict (`wf`: distinct `str`
+    keys); `dump()` returns `bs` (so `convert()` and — if requested — `validate()` accepted);
+    `bs` is within `MAX_TORRENT_FILE_SIZE`; `info` is a dict; `info['pieces']` (if present) is
+    written as a byte string; `info['private']` (if present) is written as 0/1;
+    `creation date` (if present) is written as an integer that `fromtimestamp`/`timestamp` give
+    back; with `validate=True` the `validate()` oracle accepts the re-read metainfo.
+    Conclusion: `read_stream(bs)` succeeds with some `t'` such that
+    * `t'.dump() == bs` (byte-identical file again),
+    * `t'` and `t` have the same canonical conversion: `encode_dict(t') = norm (encode_dict(t))`
+      (`norm` only sorts dictionaries by raw key) — i.e. `t' = t` up to exactly what `convert()`
+      erases: tuple→list, bool→0/1, float→int, datetime→int (and back to `datetime` for the
+      top-level `creation date`), `private`→bool, bytes that are valid UTF-8→str, dict insertion
+      order (→ raw key order, `pieces` last in `info`), absent `info`→`{}`,
+    * the bytes hashed for the infohash, and hence the infohash for every hash function, are the
+      same (whenever `validate()` accepts `t'`, which `infohash` always calls).
+    For `t` that was itself read from a file, `t' = t` exactly (`C05_read_dump_fixpoint`). -/
+theorem C05_read_dump (env : Env) (t : List (PyVal × PyVal)) (validate : Bool) (bs : Bytes)
+    (hw : wf (.dict (ensureInfo t)) = true)
+    (hd : dump env t validate = .ok bs)
+    (hsize : bs.length ≤ env.maxSize)
+    (hinfo : ∃ ikvs, PyVal.lookupStr "info" (ensureInfo t) = some (.dict ikvs))
+    (hpieces : PyPiecesOk t) (hpriv : PyPrivateOk t) (hdate : PyDateOk env t)
+    (hval : validate = true → ∀ t', read env bs false = .ok t' → env.validate (.dict t') = true) :
+    ∃ t', read env bs validate = .ok t' ∧ dump env t' validate = .ok bs ∧
+      (∃ u, encodeDict (ensureInfo t) = .ok u ∧ encodeDict t' = .ok (norm u)) ∧
+      (∀ ib, infoBytes env t = .ok ib → env.validate (.dict t') = true →
+        infoBytes env t' = .ok ib) ∧
+      (∀ H h, infohash env H t = .ok h → env.validate (.dict t') = true →
+        infohash env H t' = .ok h) := by
+  obtain ⟨ukvs, hu, hps, _⟩ := dump_parse hw hd
+  obtain ⟨ikvs, hli⟩ := hinfo
+  simp only [norm] at hps
+  exact C05_read_dump_doc env t validate bs _ hw hd hsize ⟨ikvs, hli⟩ hps
+    (piecesOk_of_py hw hu hli hpieces) (privateOk_of_py hw hu hli hpriv)
+    (dateOk_of_py hw hu hdate) hval
+
+/-- a torrent as a program builds it: insertion order not sorted, tuple, bool `private`,
+    float, `datetime` creation date, non-UTF-8 `pieces`, a multi-byte key -/
+def pyT : List (PyVal × PyVal) :=
+  [(.str "é", .tuple [.bool true, .float (.fin 1 false false)]),
+   (.str "info", .dict [(.str "pieces", .bytes [255, 254]), (.str "private", .bool true),
+                        (.str "name", .str "a")]),
+   (.str "creation date", .datetime (some 5))]
+
+/-- non-vacuity of `C05_read_dump`: `pyT` satisfies every hypothesis (with `validate=True`) -/
+example : wf (.dict (ensureInfo pyT)) = true ∧
+    (∃ bs, dump rtEnv pyT true = .ok bs ∧ bs.length ≤ rtEnv.maxSize) ∧
+    (∃ ikvs, PyVal.lookupStr "info" (ensureInfo pyT) = some (.dict ikvs)) ∧
+    PyPiecesOk pyT ∧ PyPrivateOk pyT ∧ PyDateOk rtEnv pyT := by
+  have hi : PyVal.lookupStr "info" (ensureInfo pyT) = some (.dict
+      [(.str "pieces", .bytes [255, 254]), (.str "private", .bool true), (.str "name", .str "a")]) := by
+    rfl
+  refine ⟨by decide, ?_, ⟨_, hi⟩, ?_, ?_, ?_⟩
+  · obtain ⟨bs, hbs⟩ := exists_ok_of_toBool (x := dump rtEnv pyT true) (by decide +kernel)
+    refine ⟨bs, hbs, ?_⟩
+    have : ((dump rtEnv pyT true).toOption.getD []).length ≤ rtEnv.maxSize := by decide +kernel
+    simpa [hbs, Except.toOption] using this
+  · intro ikvs m h1 h2
+    rw [hi] at h1
+    simp only [Option.some.injEq, PyVal.dict.injEq] at h1
+    subst h1
+    have : PyVal.lookupStr "pieces" [(PyVal.str "pieces", PyVal.bytes [255, 254]),
+      (.str "private", .bool true), (.str "name", .str "a")] = some (.bytes [255, 254]) := by rfl
+    rw [this] at h2
+    exact ⟨[255, 254], by rw [← Option.some.inj h2]; rfl⟩
+  · intro ikvs m h1 h2
+    rw [hi] at h1
+    simp only [Option.some.injEq, PyVal.dict.injEq] at h1
+    subst h1
+    have : PyVal.lookupStr "private" [(PyVal.str "pieces", PyVal.bytes [255, 254]),
+      (.str "private", .bool true), (.str "name", .str "a")] = some (.bool true) := by rfl
+    rw [this] at h2
+    exact Or.inr (by rw [← Option.some.inj h2]; rfl)
+  · intro m h
+    have : PyVal.lookupStr "creation date" (ensureInfo pyT) = some (.datetime (some 5)) := by rfl
+    rw [this] at h
+    exact ⟨5, by rw [← Option.some.inj h]; rfl, rfl⟩
 
 end Torf.C05
